@@ -297,6 +297,17 @@ func genRatePlan(r *rand.Rand, tier string) *vfPlan {
 		}
 		return p
 	}
+	if chance(r, 0.3) {
+		// the budget is spent down to a few attempts, then several guesses arrive at the same moment
+		add(vfStep{Op: "pwburst", N: int64(p.Cfg.Burst - r.IntN(4)), A: "form", User: "many", B: "wrong"})
+		k := 3 + r.IntN(4)
+		for i := 0; i < k; i++ {
+			add(vfStep{Op: "login", Sess: fmt.Sprintf("p%d", i), User: pick(r, []string{"alice", "bob", "mallory"}), A: "wrong", B: pick(r, []string{"form", "basic"}), Par: 9})
+		}
+		for i := 0; i < 60; i++ {
+			p.Tape = append(p.Tape, r.IntN(6))
+		}
+	}
 	n := 3 + r.IntN(8)
 	for i := 0; i < n; i++ {
 		switch r.IntN(10) {
